@@ -406,7 +406,7 @@ def interactive_tables():
             and isinstance(c.keywords[0].value, ast.Name) and c.keywords[0].value.id == "step_size") for c in calls)
     # step: after super().step(), the clock's step size is written back only under `if step_size is not None`
     st = _fn(ic, "step")
-    seen_super, guarded = False, True
+    seen_super, guards = False, []
     for stmt in st.body:
         has_super = any(isinstance(n, ast.Call) and isinstance(n.func, ast.Attribute) and n.func.attr == "step"
                         and isinstance(n.func.value, ast.Call) and _attr_name(n.func.value.func) == "super" for n in ast.walk(stmt))
@@ -417,11 +417,43 @@ def interactive_tables():
             writes = [n for n in ast.walk(stmt) if isinstance(n, ast.Assign)
                       and any("_clock_step_size" in ast.unparse(t) for t in n.targets)]
             if writes:
-                ok = isinstance(stmt, ast.If) and "".join(ast.unparse(stmt.test).split()) == "step_sizeisnotNone"
-                guarded = guarded and ok
+                guards.append(_restore_guard(stmt))
     if not seen_super:
         raise TranslationError("InteractiveContext.step: super().step() not found")
-    return run_until_cmp, (forwards and not rebound), guarded
+    guard = guards[0] if len(guards) == 1 else ("never" if not guards else "other")
+    return run_until_cmp, (forwards and not rebound), guard
+
+
+def _restore_guard(stmt) -> str:
+    """condition under which InteractiveContext.step writes the old step size back after the engine step:
+    "always" | "given" (`if step_size is not None`) | "givenAndNotRecomputed" (additionally not when the clock has
+    just recomputed its own step: per-simulant clocks and a non-empty population, the condition of
+    SimulationClock.step_forward) | "other" """
+    if not isinstance(stmt, ast.If):
+        return "always" if isinstance(stmt, ast.Assign) else "other"
+    if stmt.orelse:
+        return "other"
+    flat = lambda e: "".join(ast.unparse(e).split())
+    conj = stmt.test.values if isinstance(stmt.test, ast.BoolOp) and isinstance(stmt.test.op, ast.And) else [stmt.test]
+    texts = [flat(c) for c in conj]
+    if "step_sizeisnotNone" not in texts:
+        return "other"
+    rest = [t for t in texts if t != "step_sizeisnotNone"]
+    if not rest:
+        return "given"
+    others = [c for c in conj if flat(c) != "step_sizeisnotNone"]
+    return "givenAndNotRecomputed" if len(others) == 1 and _is_not_recomputed(others[0]) else "other"
+
+
+def _is_not_recomputed(e) -> bool:
+    """`not (self._clock._individual_clocks and not self.get_population(untracked=True).empty)`"""
+    if not (isinstance(e, ast.UnaryOp) and isinstance(e.op, ast.Not)):
+        return False
+    b = e.operand
+    if not (isinstance(b, ast.BoolOp) and isinstance(b.op, ast.And) and len(b.values) == 2):
+        return False
+    texts = sorted("".join(ast.unparse(v).split()) for v in b.values)
+    return texts == sorted(["self._clock._individual_clocks", "notself.get_population(untracked=True).empty"])
 
 
 # --------------------------------------------------------------------------- rendering
@@ -513,8 +545,10 @@ def render_tables() -> str:
     o.append('def runUntilLoopCmp : String := "%s"' % ru_cmp)
     o.append("/-- `take_steps` never rebinds `step_size` and passes exactly it to every `self.step(...)` -/")
     o.append("def takeStepsForwardsStepSize : Bool := %s" % ("true" if ts_forwards else "false"))
-    o.append("/-- `InteractiveContext.step` writes the old step size back only under `if step_size is not None` -/")
-    o.append("def interactiveStepRestoresOnlyWhenGiven : Bool := %s\n" % ("true" if step_guarded else "false"))
+    o.append("/-- when `InteractiveContext.step` writes the old step size back after the engine step: always | given (`if step_size")
+    o.append("is not None`) | givenAndNotRecomputed (and not when per-simulant clocks with a non-empty population have just")
+    o.append("recomputed the step, the condition of `SimulationClock.step_forward`) | never | other -/")
+    o.append('def interactiveStepRestoreGuard : String := "%s"\n' % step_guarded)
     o.append("end Viv.Gen\n")
     return "\n".join(o)
 
